@@ -269,7 +269,7 @@ fn cuts_from_index(ci: u64, n: usize) -> Option<Vec<usize>> {
 impl Family for Batchings {
     fn name(&self) -> String {
         if self.pipelined_only {
-            return format!("pipelined-len-{}-cuts-{}", self.len, self.max_cuts);
+            return format!("pipelined-{}-kinds-len-{}-cuts-{}", self.alpha.len(), self.len, self.max_cuts);
         }
         if self.alpha.len() > 9 {
             return format!("batchings-{}-kinds-len-{}-cuts-{}", self.alpha.len(), self.len, self.max_cuts);
@@ -668,6 +668,8 @@ pub fn build(quick: bool) -> Check {
         families.push(Box::new(Batchings { pipelined_only: true, alpha: a.clone(), len: 3, max_cuts: 1 }));
         families.push(Box::new(Batchings { pipelined_only: true, alpha: a.clone(), len: 4, max_cuts: 1 }));
         families.push(Box::new(Batchings { pipelined_only: false, alpha: a.clone(), len: 2, max_cuts: 1 }));
+        families.push(Box::new(Batchings { pipelined_only: true, alpha: wide_alphabet(), len: 2, max_cuts: 1 }));
+        families.push(Box::new(Batchings { pipelined_only: true, alpha: wide_alphabet(), len: 3, max_cuts: 1 }));
         families.push(Box::new(SmallComps::new(14)));
         families.push(Box::new(ReplySizes::new(30_000)));
         families.push(Box::new(LargeRequests::new(&[70_000, MAXP - 1, MAXP, 2 * MAXP], 1)));
@@ -680,6 +682,9 @@ pub fn build(quick: bool) -> Check {
         families.push(Box::new(Batchings { pipelined_only: true, alpha: a.clone(), len: 5, max_cuts: 1 }));
         families.push(Box::new(Batchings { pipelined_only: true, alpha: a.clone(), len: 3, max_cuts: 2 }));
         families.push(Box::new(Batchings { pipelined_only: false, alpha: a.clone(), len: 4, max_cuts: 1 }));
+        families.push(Box::new(Batchings { pipelined_only: true, alpha: wide_alphabet(), len: 2, max_cuts: 2 }));
+        families.push(Box::new(Batchings { pipelined_only: true, alpha: wide_alphabet(), len: 3, max_cuts: 1 }));
+        families.push(Box::new(Batchings { pipelined_only: true, alpha: wide_alphabet(), len: 4, max_cuts: 1 }));
         families.push(Box::new(SmallComps::new(15)));
         families.push(Box::new(ReplySizes::new(200_000)));
         families.push(Box::new(LargeRequests::new(&[4092, 70_000, MAXP - 1, MAXP, MAXP + 1, 2 * MAXP - 1, 2 * MAXP, 2 * MAXP + 1], 2)));
